@@ -368,10 +368,18 @@ func (c *Conn) handleMail(arg string) {
 				c.writeResponse(504, EnhancedCode{5, 5, 4}, "SMTPUTF8 is not implemented")
 				return
 			}
+			if value != "" {
+				c.writeResponse(501, EnhancedCode{5, 5, 4}, "SMTPUTF8 takes no value")
+				return
+			}
 			opts.UTF8 = true
 		case "REQUIRETLS":
 			if !c.server.EnableREQUIRETLS {
 				c.writeResponse(504, EnhancedCode{5, 5, 4}, "REQUIRETLS is not implemented")
+				return
+			}
+			if value != "" {
+				c.writeResponse(501, EnhancedCode{5, 5, 4}, "REQUIRETLS takes no value")
 				return
 			}
 			opts.RequireTLS = true
